@@ -60,7 +60,9 @@ def generic_runner(P, exe, model_ok, rng, tier, replay=None):
     impl, notes, sans = run.run_harness(exe, scns, watchdog=P.get("watchdog", 20))
     mod, mnotes = ({}, [])
     if model_ok and P.get("model", True):
-        mod, mnotes = run.run_model(build.model_exe(), impl)
+        # scenarios whose id starts with "ob_" are ORACLE-ONLY (grids too large for the model driver):
+        # the implementation's outputs are judged by the independent oracle, nothing is replayed
+        mod, mnotes = run.run_model(build.model_exe(), {k: v for k, v in impl.items() if not k.startswith("ob_")})
     fails, corr_broken = [], []
     first_div = None
     nontrivial = set()
@@ -94,7 +96,7 @@ def generic_runner(P, exe, model_ok, rng, tier, replay=None):
                 cause = P.get("cause", lambda s, f: "other")(si, (clause, wit))
                 fails.append(dict(clause=clause, cause=cause, witness="scenario %s: %s" % (sid, wit), scenario_text=text_of[sid]))
         # correspondence with the model
-        if model_ok and P.get("model", True):
+        if model_ok and P.get("model", True) and not sid.startswith("ob_"):
             sm = mod.get(sid)
             d = run.diff_scn(si, sm, P.get("sections"))
             compared += 1
@@ -235,6 +237,31 @@ def gen_small_scope(rng, tier, ops_fn, prefix="x", acc=False, basins=False, n_qu
     return out
 
 
+def gen_big_oracle_only(rng, tier, kind):
+    """thorough tier only: rasters of 16x16 to 40x40 nodes (many basins, hubs of large degree, long
+    flow paths) judged by the independent oracle alone - the model driver is not run on them"""
+    out = []
+    if tier != "thorough":
+        return out
+    for k in range(120):
+        side = rng.choice([16, 20, 24, 32])
+        g = gen.raster(rng, side, side + 8, conn=rng.choice(["queen", "queen", "rook", "bishop"]), ov_prob=0.0)
+        n = g.n
+        z = gen.elevation(rng, g, rng.choice(["ints", "ints2", "random", "steps", "plateau_eps", "cones"]))
+        ops = ["single"] if kind == "bgraph" else gen.resolver_ops(rng)
+        lines = [g.line(), "graph " + " ".join(ops)]
+        if rng.random() < 0.6:
+            lines.append("set_base " + " ".join(map(str, sorted(rng.sample(range(n), rng.choice([1, 5, 40, n // 8]))))))
+        if rng.random() < 0.3:
+            lines.append("set_mask " + " ".join(map(str, gen.mask_bits(rng, g))))
+        lines.append("update " + gen.hexes(z))
+        if kind == "bgraph":
+            lines.append("bgraph k " + gen.hexes(z))
+            lines.append("bgraph b " + gen.hexes(z))
+        out.append(("ob_%s%d" % (kind, k), lines))
+    return out
+
+
 def gen_resolved(rng, tier):
     out = []
     N = counts(tier, 260, 2500)
@@ -243,6 +270,7 @@ def gen_resolved(rng, tier):
         ops = gen.resolver_ops(rng)
         out.append(("r%d" % k, _flow_scn(rng, g, ops, n_updates=rng.randint(1, 2))))
     out += gen_small_scope(rng, tier, gen.resolver_ops, "xr")
+    out += gen_big_oracle_only(rng, tier, "res")
     return out
 
 
@@ -927,6 +955,7 @@ def gen_bgraph(rng, tier):
             lines.append("bgraph %s %s %d" % ("b" if first == "k" else "k", gen.hexes(z), reps))
         out.append(("b%d" % k, lines))
     out += gen_mstraw(rng, tier)
+    out += gen_big_oracle_only(rng, tier, "bgraph")
     return out
 
 
